@@ -239,7 +239,7 @@ func (b *Batch) Compile(needUnopt bool) bool {
 				// the compiler fails on a hand-written template file: every function subset
 				// contains it, so it is found by leaving the template files out one at a time
 				fn := b.Prog.ExternOf(file)
-				b.Gate = append(b.Gate, GateFailure{Func: fn, Stage: "compile-panic", Msg: msg, Files: filesOf(b.Prog.Subset(map[string]bool{}))})
+				b.Gate = append(b.Gate, GateFailure{Func: fn, Stage: "compile-panic", Msg: msg, Files: filesOf(b.Prog)})
 				b.Prog.DropRaw(file)
 				continue
 			}
